@@ -18,6 +18,7 @@ fn main() {
             let mut emit = |line: String| { let o = cases::exec_case(&line); out.case(&line, o); };
             match suite {
                 "C12" => suites::c12::gen(tier, seed, &mut emit),
+                "C15" => suites::c15::gen(tier, seed, &mut emit),
                 _ => { eprintln!("unknown suite {}", suite); std::process::exit(2); }
             }
             out.finish();
